@@ -21,8 +21,8 @@ h) reads scan published segments only: the scan list must not contain in-flight 
    .idx), so a read sees half-written rows that carry real event ids and win the de-duplication against the intact copy in the passive buffer. The passive buffer is released only after publication
    (C03.c), so the in-flight merge adds nothing to completeness.
 """
-FLOOR = 15
-REQUIRED = ["C11.a", "C11.b", "C11.c", "C11.f", "C11.g", "C11.h", "C11.i", "C11.j", "C11.k", "C11/C01.g", "C11/C03.c", "C11/C05.b1", "C11/C05.b2", "C11/C05.d", "C11/C05.e"]
+FLOOR = 16
+REQUIRED = ["C11.a", "C11.b", "C11.c", "C11.f", "C11.g", "C11.h", "C11.i", "C11.j", "C11.k", "C11.l", "C11/C01.g", "C11/C03.c", "C11/C05.b1", "C11/C05.b2", "C11/C05.d", "C11/C05.e"]
 
 SEGMOD = re.compile(r"^(engine::core::(column|filter|read::catalog|time|zone|snapshot|write)::|shared::storage_header::)")
 WRITER_ROOTS = {"engine::core::write::flusher::Flusher::flush", "engine::core::compaction::multi_uid_compactor::MultiUidCompactor::run",
@@ -283,6 +283,27 @@ def run(ctx):
             bad.append(("reclaim-set-from-directory-listing", "CompactionHandover::commit_batch adds labels found by listing the shard directory (%s) to the set it retires and reclaims: a segment directory a concurrent flush has written but not yet indexed is deleted, and the flush then publishes an index line without a directory" % sorted({c.nname.split("::")[-2] + "::" + c.nname.split("::")[-1] for c in listing}), sp(b, listing[0].bb)))
         return bad
     ctx.run("C11.k", "K7 PROV", "CompactionHandover::commit_batch", "a hand-over reclaims only what its own retirement drained", k_)
+
+    def l_(inst):
+        """segments.idx is replaced by write-to-temporary + rename. SegmentIndex::load removes a leftover temporary file, and the
+        compactor calls load WITHOUT the shard's flush lock: the file load removes must never be the temporary file of a save that is
+        in flight. Decided: the temporary path of save is unique per save (derives from a counter / the process id), not the fixed name
+        load cleans up."""
+        bad = []
+        sv = F.fn("SegmentIndex::save")
+        cr = [c for c in sv.calls if not c.cleanup and re.search(r"fs::File::create$|OpenOptions::open$", c.nname)]
+        rn = [c for c in sv.calls if not c.cleanup and c.nname.endswith("fs::rename")]
+        if not cr or not rn:
+            raise AnchorMissing("File::create / fs::rename in SegmentIndex::save")
+        W = wide_all(sv, cr[0].args[0]) | sv._origin_locals(cr[0].args[0])
+        uniq = [c for c in sv.calls if not c.cleanup and c.dest and c.dest[0] in W and re.search(r"fetch_add$|process::id$|Uuid|SystemTime::now$|Instant::now$|thread::current$", c.nname)]
+        ld = F.fn("SegmentIndex::load")
+        removes = [c for c in ld.calls if not c.cleanup and c.nname.endswith("fs::remove_file")]
+        inst.sites = [sp(sv, cr[0].bb), sp(sv, rn[0].bb)] + [sp(ld, c.bb) for c in removes] + ["temporary path of save is unique per save: %s" % bool(uniq)]
+        if removes and not uniq:
+            bad.append(("load-removes-inflight-temporary", "SegmentIndex::save writes a fixed temporary name and SegmentIndex::load (called by the compactor without the flush lock) removes a leftover of that name: a flush's save loses its temporary file before the rename and the flushed segment is never registered", sp(sv, cr[0].bb)))
+        return bad
+    ctx.run("C11.l", "K7 PROV", "SegmentIndex::save / load", "load never removes the temporary file of a save in flight", l_)
 
 
 def cmp_count(fam):
